@@ -70,8 +70,15 @@ class Ev:
         if k == 'Struct' and 'Range' in (n.get('d') or ''):
             f = dict((a, b) for a, b in n['f'])
             return (self.ev(fn, f['start'], env, depth) if 'start' in f else const(0)), (self.ev(fn, f['end'], env, depth) if 'end' in f else None)
-        if k == 'Block' and not n['st'] and 'e' in n:
-            return self.range_of(fn, n['e'], env, depth)
+        if k == 'Block' and 'e' in n:
+            e2 = dict(env)
+            for s_ in n['st']:
+                if s_.get('k') == 'Let' and 'i' in s_ and s_['p'].get('k') == 'Bind':
+                    try:
+                        e2[s_['p']['id']] = self.ev(fn, s_['i'], e2, depth)
+                    except Unknown as ex:
+                        e2[s_['p']['id']] = ex
+            return self.range_of(fn, n['e'], e2, depth)
         if k in ('MCall', 'Call') and depth > 0:
             t = self.target(n)
             if t is not None and t.body is not None:
@@ -135,6 +142,12 @@ class Ev:
                         return sym('div_ceil(%s, %s)' % (show(x), show(b)))
                 return sym('(%s)%s(%s)' % (show(a), '/' if op == 'Div' else '%', show(b)))
             raise Unknown('operator ' + op)
+        if k == 'If' and 'el' in n:
+            # a conditional value: the common value if both arms agree, else an opaque `ite` of the two (never equal to a plain polynomial)
+            a, b = self.ev(fn, n['th'], env, depth), self.ev(fn, n['el'], env, depth)
+            if a == b:
+                return a
+            return sym('ite(%s)' % '; '.join(sorted([show(a), show(b)])))
         if k == 'Def':
             c = self.F.fns.get(n['d'])
             if c is not None and c.body is not None and depth > 0 and (c.raw.get('dk') or '').startswith(('Const', 'AssocConst')):
@@ -185,7 +198,10 @@ class Ev:
                             args.append(self.ev(fn, a, env, depth))
                         except Unknown as ex:
                             args.append(ex)
-                    return self.fn_poly(t, args, depth - 1)
+                    r_ = self.fn_poly(t, args, depth - 1)
+                    # a callee whose value is conditional stays an opaque function of its arguments (salt_size(hiding))
+                    if not any(x.startswith('ite(') for m in r_ for x in m):
+                        return r_
                 except Unknown:
                     pass
             nm = parse_path(callee(n) or '')[1] or n.get('n')
